@@ -1,0 +1,27 @@
+//go:build verif
+
+package jbig2
+
+import "unsafe"
+
+// Only compiled with the build tag "verif": lets the verification harness
+// observe the pool ledger (which bitmap is charged and released, and the
+// pool's own live/peak counters).  It adds no behaviour of its own.
+
+// VerifPoolHook, if non-nil, is called for every pool event:
+// ev 'A' allocBitmap, 'F' freeBitmap (id = address of the pixel data),
+// 'a' allocInts/allocPointers, 'f' freeInts (id = nil).
+// n is the byte count of the event, live and peak are the pool's counters
+// after the event.
+var VerifPoolHook func(ev byte, id unsafe.Pointer, n, live, peak int)
+
+func verifPool(ev byte, pix []byte, n int, p *bitmapPool) {
+	if VerifPoolHook == nil {
+		return
+	}
+	var id unsafe.Pointer
+	if len(pix) > 0 {
+		id = unsafe.Pointer(&pix[0])
+	}
+	VerifPoolHook(ev, id, n, p.live, p.peak)
+}
